@@ -7,7 +7,7 @@ builds the real objects from a graph spec.
 Library spec:  {"pkg": str, "enums": [{"name","members"}], "classes": [ClassSpec]}
 ClassSpec:     {"name", "xpmid", "parent": name|None, "kind": "config"|"task"|"light",
                 "deprecated": bool, "args": [ArgSpec]}
-ArgSpec:       {"name", "decl": "param"|"meta"|"option"|"constant"|"pathgen",
+ArgSpec:       {"name", "decl": "param"|"meta"|"option"|"constant"|"pathgen"|"factory",
                 "ty": Ty, "optional": bool, "default": Val|absent}
 Ty:            "int"|"float"|"str"|"bool"|"path"|{"enum": name}|{"cfg": name}|{"list": Ty}|{"dict": Ty}
 Val (spec):    None | bool | int | {"f": float-hex} | str | {"e": [enum, member]} | {"p": str}
@@ -139,12 +139,19 @@ def gen_library(rng, tag, n_classes=None, unamb=False, with_deprecated=False, wi
                 decl = "meta"
             elif r < 0.82:
                 decl = "option"
-            elif r < 0.90:
+            elif r < 0.89:
                 decl = "constant"
+            elif r < 0.94:
+                decl = "factory"
             else:
                 decl = "pathgen"
             arg = {"name": an, "decl": decl, "optional": False}
-            if decl == "pathgen":
+            if decl == "factory":
+                # `x: Param[int] = field(default_factory=...)`: a generated value that is neither a path nor Meta —
+                # the argument has a generator but is not `ignored`; its value appears when the graph is sealed
+                arg["ty"] = rng.choice(["int", "str"])
+                arg["fval"] = gen_scalar(rng, arg["ty"], {"enums": enums})
+            elif decl == "pathgen":
                 arg["ty"] = "path"
                 arg["file"] = rng.choice(["out.txt", "model.pt", "d"])
             elif decl == "constant":
@@ -205,7 +212,7 @@ def val_src(v):
 def emit_source(lib, extra_body=None):
     """source text of `<pkg>/__init__.py`"""
     out = ["from pathlib import Path", "from enum import Enum", "from typing import List, Dict, Optional, Annotated",
-           "from experimaestro import Config, Task, Param, Meta, Option, Constant, pathgenerator, LightweightTask, deprecate", ""]
+           "from experimaestro import Config, Task, Param, Meta, Option, Constant, pathgenerator, LightweightTask, deprecate, field", ""]
     for e in lib["enums"]:
         out.append(f"class {e['name']}(Enum):")
         for i, m in enumerate(e["members"]):
@@ -223,6 +230,9 @@ def emit_source(lib, extra_body=None):
                 t = f"Optional[{t}]"
             if a["decl"] == "pathgen":
                 out.append(f"    {a['name']}: Annotated[Path, pathgenerator({a['file']!r})]")
+                continue
+            if a["decl"] == "factory":
+                out.append(f"    {a['name']}: Param[{t}] = field(default_factory=lambda: {val_src(a['fval'])})")
                 continue
             ann = {"param": "Param", "meta": "Meta", "option": "Option", "constant": "Constant"}[a["decl"]]
             line = f"    {a['name']}: {ann}[{t}]"
@@ -268,7 +278,7 @@ class GraphGen:
         self.nodes.append(node)
         rng = self.rng
         for a in all_args(self.lib, cname):
-            if a["decl"] in ("constant", "pathgen"):
+            if a["decl"] in ("constant", "pathgen", "factory"):
                 continue
             if "default" in a and rng.random() < 0.4:
                 if rng.random() < 0.5:
